@@ -106,7 +106,12 @@ def nearest_binding_fresh(fi, site, fresh_all):
                     bs = _binds(prev, name)
                     if bs:
                         if isinstance(prev, (ast.Assign, ast.AnnAssign)) and len(bs) == 1 and not isinstance(bs[0], str):
-                            return F.is_fresh_expr(bs[0], fresh_all)
+                            v = bs[0]
+                            shallow = (isinstance(v, ast.Call) and isinstance(v.func, ast.Attribute) and v.func.attr in ("model_copy", "copy")
+                                       and not any(k.arg == "deep" for k in v.keywords))
+                            if shallow and site.depth > 1:
+                                return False          # deep store through a shallow copy reaches the original's nested objects
+                            return F.is_fresh_expr(v, fresh_all)
                         return False          # bound inside a compound statement: not decidable here
         if isinstance(parent, ast.For) and any(isinstance(x, ast.Name) and x.id == name for x in ast.walk(parent.target)):
             return False
